@@ -31,6 +31,9 @@ var propConfigs = map[string]*propConfig{
 	"C19": {replay: replayC18, undecided: "that time.AfterFunc fires after exactly the armed delay (A-TIMER); counts, order, armed delay and reset on progress are proved"},
 	"C14": {extra: sweepBrokerWrites, undecided: "that the broker's TCP connection is closed on every session end (close is in run's deferred function, outside the step contracts); only what is written before the close is decided"},
 	"C24": {extra: sweepSendScope, undecided: "byte-level serialisation of the packet (paho's Write, trusted A-PAHO); UTF-8 well-formedness and the U+0000 ban of MQTT strings; validity of predefined topic names from the configuration (A-CFG)"},
+	"C30": {undecided: "what the YAML decoder and the option parser's loop compute (A-YAML, A-PARSE); the tools' flag plumbing through urfave/cli (A-CLI)"},
+	"C31": {extra: sweepAuthOnlyInConnect, undecided: "flag and environment-variable resolution inside urfave/cli (A-CLI); DTLS itself"},
+	"C17": {undecided: "real loss timing: which retransmissions happen is the retry budget of C19 under A-TIMER; the API's blocking points are treated with rely clauses (A-RELY)"},
 	"C27": {undecided: "which of several matching callbacks is invoked (the property does not ask)"},
 	"C29": {undecided: "real interleavings: atomicity is derived from the proved lock coverage plus A-MUTEX / A-ATOMICPKG, not explored"},
 }
@@ -166,6 +169,17 @@ func (pc *propConfig) run(prop string, g *G, idx funcIndex, cs *contractSet, out
 	}
 	work := filepath.Join(out, "work", prop)
 	os.RemoveAll(work)
+	// an obligation recorded as a known finding as a whole (no witness to tell
+	// one violation of it from another) is reported as such without asking the
+	// solvers again: their answer could not change the report
+	known0 := loadKnown(out)
+	for _, o := range all {
+		for _, kf := range known0.Findings {
+			if kf.Property == prop && kf.Obligation == o.Name && kf.Witness == "" && !o.Cover {
+				o.Result, o.Solver, o.Raw = "unknown", "not solved (recorded known finding)", "recorded in known_findings.json"
+			}
+		}
+	}
 	g.solveAll(all, work, timeout, thorough)
 
 	// aggregate by obligation name (an obligation holds iff it holds on every path)
